@@ -2,7 +2,7 @@
 import ast
 
 from ..pymodel import AnalysisError, FuncInfo, parent
-from ..astutil import (norm_compare, src, is_name, is_const, call_name, walk_no_nested, strip_docstring,
+from ..astutil import (expand_names, norm_compare, src, is_name, is_const, call_name, walk_no_nested, strip_docstring,
                        compare_atoms, enclosing_stmt, calls_in, names_in, assignments_to)
 from ..cfg import cfg_of, ENTRY, EXIT, RAISE
 from ..effects import Effects, root
@@ -263,28 +263,34 @@ def rules(ctx):
         keyp = fn.all_params[-1]
         ok, why = False, "no KeyError on more than two labels"
         # collect the expression compared with 2
+        def _count_of(e):
+            """text of what a counting expression counts: len(X) or sum(1 for .. in X if ..); names are followed"""
+            e = expand_names(fn.node, e)
+            if isinstance(e, ast.Call) and is_name(e.func, 'len') and len(e.args) == 1:
+                return src(expand_names(fn.node, e.args[0]))
+            if isinstance(e, ast.Call) and is_name(e.func, 'sum') and len(e.args) == 1 and \
+                    isinstance(e.args[0], (ast.GeneratorExp, ast.ListComp)) and is_const(e.args[0].elt, 1):
+                return src(e.args[0])
+            return None
         for n in ast.walk(fn.node):
-            lencall = None
+            text = None
             if isinstance(n, ast.Compare) and len(n.ops) == 1:
-                o3 = norm_compare(n)
-                if o3:
-                    for lhs_, op_, rhs_, node_ in ((o3[0], o3[1], o3[2], n.left), (o3[2], _SW.get(o3[1]), o3[0], n.comparators[0])):
-                        if not (lhs_.startswith('len(') and op_):
-                            continue
-                        if (op_, rhs_) in (('>', '2'), ('>=', '3')):
-                            lencall = node_
-                        elif (op_, rhs_) in (('<=', '2'), ('<', '3')):
-                            # the accepting spelling: `if len(..) <= 2: return` with the raise on the other path
-                            owner = enclosing_stmt(n)
-                            if isinstance(owner, ast.If) and any(isinstance(x, ast.Return) for x in owner.body) \
-                                    and not any(isinstance(x, ast.Raise) for b_ in owner.body for x in ast.walk(b_)):
-                                lencall = node_
-            if isinstance(lencall, ast.Call) and is_name(lencall.func, 'len'):
-                arg = lencall.args[0]
-                text = src(arg)
-                if isinstance(arg, ast.Name):
-                    defs = [src(v) for s_, v in assignments_to(fn.node, arg.id) if isinstance(v, ast.AST)]
-                    text = ' '.join(defs)
+                opn = {ast.Gt: '>', ast.GtE: '>=', ast.Lt: '<', ast.LtE: '<='}.get(type(n.ops[0]))
+                for lhs_, op_, rhs_ in ((n.left, opn, n.comparators[0]), (n.comparators[0], _SW.get(opn), n.left)):
+                    if not op_ or not isinstance(rhs_, ast.Constant):
+                        continue
+                    t_ = _count_of(lhs_)
+                    if t_ is None:
+                        continue
+                    if (op_, rhs_.value) in (('>', 2), ('>=', 3)):
+                        text = t_
+                    elif (op_, rhs_.value) in (('<=', 2), ('<', 3)):
+                        # the accepting spelling: `if len(..) <= 2: return` with the raise on the other path
+                        owner = enclosing_stmt(n)
+                        if isinstance(owner, ast.If) and any(isinstance(x, ast.Return) for x in owner.body) \
+                                and not any(isinstance(x, ast.Raise) for b_ in owner.body for x in ast.walk(b_)):
+                            text = t_
+            if text is not None:
                 if spin:
                     okk = ('.count(' in text and '% 2' in text) or 'PUSOMatrix.squash_key' in text or 'QUSOMatrix.squash_key' in text
                     why = "counts the labels that survive spin parity" if okk else \
